@@ -38,7 +38,7 @@ def cases(tier, seed):
         base = designs.op_cases([1, 3], ops='w+-*<xcsm', mul_max=3) + designs.op_cases([3], ops='w+', dests=('reg',))
         base += [dict(c, reset=5 % (1 << c['wd'])) for c in designs.op_cases([3], ops='w', dests=('reg',))]
         base += [dict(c, reset=0) for c in designs.op_cases([1, 3], ops='w+', dests=('reg',))]
-        base += designs.expr_cases(20, seed, n=6, maxw=4) + designs.seq_cases() + designs.misc_cases()[:10] + designs.misc_cases()[-3:] + [{'fam': 'MISC', 'kind': 'rtl_assert', 'w': 2}]
+        base += designs.expr_cases(20, seed, n=6, maxw=4) + designs.seq_cases() + designs.misc_cases()[:10] + designs.misc_cases()[-4:] + [{'fam': 'MISC', 'kind': 'rtl_assert', 'w': 2}]
     else:
         base = designs.op_cases([1, 2, 3, 4, 8], ops='w~&|^n+-*<>=xcsm', mul_max=4) + designs.op_cases([1, 3, 8], ops='w+-', dests=('reg',))
         base += [dict(c, reset=(1 << c['wd']) - 1) for c in designs.op_cases([1, 3, 8], ops='w', dests=('reg',))]
